@@ -12,7 +12,7 @@ from __future__ import annotations
 import ast
 from .. import astutil as U
 from .. import cfg as C
-from ..formula import push_slices, single_defs, inline, factors, slice_key
+from ..formula import push_slices, canon_ufuncs, reaching_value, single_defs, inline, factors, slice_key
 from ..source import AnalysisError, AnchorMissing
 
 PB = 'kawin/precipitation/PopulationBalance.py'
@@ -256,7 +256,11 @@ def _limiter_sides(func, F, psd, dt, defs):
                 S = slice_key(base.slice)
                 stores.append(st)
                 m = inline(mask, defs) if isinstance(mask, ast.Name) else mask
-                val_num, val_den, vsign = factors(inline(st.value, defs))
+                if isinstance(m, ast.Name):         # bound more than once (an unrolled table): take the definition that reaches the store
+                    rv = reaching_value(func, m.id, st)
+                    m = inline(rv, defs) if rv is not None else m
+                m = canon_ufuncs(m)
+                val_num, val_den, vsign = factors(push_slices(canon_ufuncs(inline(st.value, defs))))
                 val_ok = len(val_num) == 1 and len(val_den) == 1 and isinstance(val_den[0], ast.Name) and val_den[0].id == dt \
                     and isinstance(val_num[0], ast.Subscript) and isinstance(val_num[0].value, ast.Name) and val_num[0].value.id == psd \
                     and (U.same(val_num[0].slice, mask) or U.same(val_num[0].slice, m))
